@@ -84,27 +84,28 @@ CHECKS["C15"] = {
             "sums and subtotal offsets are read from the implementation (owned by C01/C04); sign of an infinity from a "
             "zero total is not compared (signed zero not modelled).",
     "design_ref": "DESIGN.md section 3 (C15)",
-    "C17": {
-        "text": "Theorems (Props/C17.v, closed under the global context) prove that for EVERY shape of the "
-                "response's filter statistics without a null dict the model's cascade equals the property's "
-                "decision list (new style selected/(selected+other), 1 for a categorical-date filter, else "
-                "filtered/unfiltered weighted N, 1 when unspecified, NaN on a zero denominator), each rule "
-                "also separately; that population counts are P*N*f cell by cell with P the row / column / "
-                "table proportion chosen by the categorical-date position (strand: 1 on categorical-date), "
-                "NaN on subtotal differences; MoE = 1.959964*(N f)*stderr and its square; linearity in N. "
-                "Refuted-by-witness theorems exhibit the null-dict AttributeError and the two strand "
-                "difference exceptions. The model is tied to the code by parsing the generated JSON into the "
-                "model's shape type and by feeding the implementation's own reported proportions and "
-                "standard errors (20 fixed shapes x cat-date positions x slice/strand + random cases), plus "
-                "a Python reading of the property text and a linearity oracle on the implementation.",
-        "note": "Trusted: Coq kernel + vm_compute; hand-written Model/Population.v tied by correspondence only "
-                "(sampled inputs, 1e-9 tolerance); the harness' JSON->fshape parser; proportions / std-errs "
-                "are taken from the implementation's public API (owned by C03/C11); the categorical-date "
-                "position comes from the generator. Three open findings (known_findings.d/C17-*.json). MoE at "
-                "difference subtotals is Z*N*f*stderr of the difference (not NaN) - read as covered by the MoE "
-                "clause. Booleans / strings as JSON numbers are not modelled (skipped and counted).",
-        "design_ref": "DESIGN.md section 3 (C17), 2.4, section 4 #12",
-    },
+}
+
+CHECKS["C17"] = {
+    "text": "Theorems (Props/C17.v, closed under the global context) prove that for EVERY shape of the "
+            "response's filter statistics without a null dict the model's cascade equals the property's "
+            "decision list (new style selected/(selected+other), 1 for a categorical-date filter, else "
+            "filtered/unfiltered weighted N, 1 when unspecified, NaN on a zero denominator), each rule "
+            "also separately; that population counts are P*N*f cell by cell with P the row / column / "
+            "table proportion chosen by the categorical-date position (strand: 1 on categorical-date), "
+            "NaN on subtotal differences; MoE = 1.959964*(N f)*stderr and its square; linearity in N. "
+            "Refuted-by-witness theorems exhibit the null-dict AttributeError and the two strand "
+            "difference exceptions. The model is tied to the code by parsing the generated JSON into the "
+            "model's shape type and by feeding the implementation's own reported proportions and "
+            "standard errors (20 fixed shapes x cat-date positions x slice/strand + random cases), plus "
+            "a Python reading of the property text and a linearity oracle on the implementation.",
+    "note": "Trusted: Coq kernel + vm_compute; hand-written Model/Population.v tied by correspondence only "
+            "(sampled inputs, 1e-9 tolerance); the harness' JSON->fshape parser; proportions / std-errs "
+            "are taken from the implementation's public API (owned by C03/C11); the categorical-date "
+            "position comes from the generator. Three open findings (known_findings.d/C17-*.json). MoE at "
+            "difference subtotals is Z*N*f*stderr of the difference (not NaN) - read as covered by the MoE "
+            "clause. Booleans / strings as JSON numbers are not modelled (skipped and counted).",
+    "design_ref": "DESIGN.md section 3 (C17), 2.4, section 4 #12",
 }
 
 CHECKS["C03"] = {
@@ -197,6 +198,93 @@ CHECKS["C11"] = {
             "for overlapping addend/subtrahend ids the indicator of a member of both is not fixed by the property: "
             "covered by correspondence only.",
     "design_ref": "DESIGN.md section 3 (C11)",
+}
+
+CHECKS["C07"] = {
+    "text": "Theorems (Props/C07.v, closed under the global context) prove for EVERY dimension (any number of elements, any "
+            "insertion list, any anchor spellings, any explicit order list, any hidden/empty set) that the model of the "
+            "payload/explicit collators - sort of (position, relation, index) keys - yields exactly the specification's "
+            "anchored order (Spec/OrderSpec.v: top-anchored subtotals, each base element preceded/followed by the subtotals "
+            "anchored before/after it in definition order, stale/None anchors at the bottom, hidden elements removed), and "
+            "that ANY sort of those keys reads that order (uniqueness of the sorted permutation); explicit order = listed "
+            "known ids first-mention-wins then the leftovers in payload order; the anchor normalisation table; ids of "
+            "id-less insertions (transforms: definition position; given ids kept); the ins_N rendering names the same "
+            "sequence as the signed one when insertion ids are distinct. Refuted-by-witness theorems exhibit the two "
+            "places where the code departs (ids of id-less VIEW insertions ranked by raw anchors; ins_N rendering of "
+            "re-ordered transform insertions). Model tied to the code by running Model/Collator.v in Coq on the raw "
+            "response + transforms against row_order()/column_order() (both formats), codes, labels, payload_order, shape, "
+            "is_empty of slices and strands; spec values computed in Coq from Spec/OrderSpec.v as the oracle.",
+    "note": "Trusted: Coq kernel + vm_compute; hand-written Model/Collator.v tied by correspondence only (sampled inputs). "
+            "Three open findings (known_findings.d/C07-*.json): BOGUS_IDS payload mapping, BOGUS_IDS TypeError with pruned "
+            "subtotals, crosswalk ranks raw anchors. Derived MR items under explicit order and sort-by-value are left to C08; "
+            "label strings are ASCII.",
+    "design_ref": "DESIGN.md section 3 (C07)",
+}
+
+CHECKS["C09"] = {
+    "text": "Theorems (Props/C09.v, closed under the global context) prove for every dimension, transform and unweighted "
+            "count tensor that a base element occurs in the display order of the model's collators IFF it is not flagged "
+            "hidden and not (prune requested and its vector empty), for rows, columns and strands; that emptiness is a "
+            "function of the UNWEIGHTED tensor only (any two weighted tensors give the same decision); a vector with a "
+            "positive unweighted cell is never pruned; a vector with no eligible respondent is; for MR crossed with a "
+            "categorical/array dimension an item answered but never selected is not empty, while for MR x MR only selected "
+            "counts matter; subtotals are dropped iff the opposing dimension prunes and all its base vectors are empty, or "
+            "the insertion carries hide: true. Model tied to the code by computing the unweighted eligibility counts from "
+            "the generated survey respondent by respondent, running Model/OrderPruning.v + Model/Collator.v in Coq and "
+            "comparing row/column order (both formats), codes, labels, shape, is_empty of slices and strands; plus an "
+            "independent Python oracle of the property text (zero / fractional weights, weighted-empty but not "
+            "unweighted-empty categories, items nobody answered).",
+    "note": "Trusted: Coq kernel + vm_compute; hand-written models tied by correspondence only (sampled inputs); the "
+            "harness' respondent-level tabulation of unweighted counts; sort-by-value orders are owned by C08.",
+    "design_ref": "DESIGN.md section 3 (C09)",
+}
+
+CHECKS["C13"] = {
+    "text": "Theorems (Props/C13.v; all but the five p-value theorems closed under the global context) prove for all "
+            "rational inputs: t = (p - p0)/sqrt(p(1-p)/n + p0(1-p0)/n0) stated through t*|t| and t^2 with the sign of "
+            "p - p0; antisymmetry t(a,b) = -t(b,a); t of a column against itself is 0 (NaN on zero variance); "
+            "df = n + n0 - 2 and its symmetry; every cell of every block uses its own row's proportions and the reference "
+            "column chosen by the selected (base or inserted) column; the effective base (sum w)^2 / sum w^2, equal to n "
+            "for equal weights; the legacy path computes the same statistic given the same base (and "
+            "C13_legacy_effective_base_refuted exhibits that it does not take the weighted base); Welch statistic and "
+            "Satterthwaite df for means; the overlap-corrected statistic and df = Na + Nb - Nab; for every CDF-shaped T "
+            "(section variable) p is even in t, in [0,1], a function of t^2, and 1 for a column against itself; the index "
+            "set of a cell is exactly {display position of b | p < alpha, and t-ordering under only_larger}, strictly "
+            "sorted, equivariant under any column order/hiding, never contains the cell's own column when p = 1 or NaN, "
+            "secondary-alpha sets contain the primary; alpha parsing as a decision table. Model tied to the code on the "
+            "implementation's own public column proportions, bases, means, stddevs and overlap counts (four blocks, "
+            "selected base or subtotal column, weighted/unweighted/squared weights, MR overlaps), p-values by scipy on "
+            "the model's exact t^2 and df; relational oracles on the implementation alone (antisymmetry, p symmetry, "
+            "self never reported, alt superset, equivariance under order/hide, legacy == matrix path).",
+    "note": "Trusted: Coq kernel + vm_compute; hand-written Model/Pairwise.v tied by correspondence only (sampled inputs, "
+            "1e-9 tolerance, decisions within 1e-9 of alpha skipped and counted); scipy's t.cdf assumed CDF-shaped (the "
+            "p-value theorems are over Coq's axiomatised reals: stdlib axioms sig_forall_dec, sig_not_dec, "
+            "functional_extensionality_dep appear in Print Assumptions of those theorems only); np.sqrt via squares. "
+            "Two open findings (known_findings.d/C13-*.json): legacy effective base from unweighted N; overlap self "
+            "p-value 0 lists a column against itself.",
+    "design_ref": "DESIGN.md section 3 (C13)",
+}
+
+CHECKS["C19"] = {
+    "text": "Theorems (Props/C19.v, closed under the global context) prove for EVERY array dimension satisfying the decidable "
+            "well-formedness predicate wfb (proved sound for wf; the side conditions are exactly those the proofs force, and "
+            "three Examples show each is needed) that alias, sub-variable id, element id as int or as decimal string, and "
+            "(when no element id collides) position all translate to the item's alias, that a stale reference translates to "
+            "None without raising, that translate only ever returns None or an alias; slot theorems: id lists (explicit "
+            "order, fixed top/bottom), element-transform keys (hide/rename, including sub-variable-id and alias keys), "
+            "opposing-element references, and whole transforms dicts written with equivalent spellings are rewritten to the "
+            "same dict; datetime dimensions: position <-> value, values fixed, stale ids untouched, idempotence. "
+            "Refuted-by-witness theorems exhibit translate(None) raising and the datetime missing-element position. Model "
+            "tied to the code by comparing Model/Shim.v's translate / shim_xf / consume with Dimension.translate_element_id, "
+            "the caller's rewritten transforms dict (including the half-rewritten dict an exception leaves) and element "
+            "hidden/label/order; relational oracle on the implementation alone: equivalent spellings give identical labels, "
+            "codes, order, values and rewritten dicts for every slot; exhaustive <= 4 items x every spelling x every slot in "
+            "the thorough tier.",
+    "note": "Trusted: Coq kernel + vm_compute; hand-written Model/Shim.v and Base/Ident.v (Python int()/str()/== on "
+            "ASCII sign+digit strings; whitespace/underscore/Unicode-digit spellings excluded and named as a gap) tied by "
+            "correspondence only. Two open findings (known_findings.d/C19-*.json): translate_element_id(None) raises "
+            "(second translation of a stale id); datetime reference equal to the missing element's position.",
+    "design_ref": "DESIGN.md section 3 (C19)",
 }
 
 NOT_APPLICABLE = {}
